@@ -174,6 +174,22 @@ def check_unary_annotated(spec, stats):
         if r is None or star_normalised(r) != star_normalised(s):
             stats.fail('C09/law/annotated/neutral', dict(case, order=label),
                        '%s for s=(%s) gave %s: parameter annotations must survive a bare (*args, **kwargs)' % (label, desc, r if r is not None else exc))
+    # ... and on a copy whose postponed annotations cannot be evaluated (a class that is generic only for the type checker,
+    # an attribute that only exists in the stubs): the laws are about signatures, not about what their annotations denote
+    named = [p for p in spec if p.kind not in (VP, VK)]
+    if named:
+        uspec = tuple(p._replace(ann=('T9[int]', 'T9.only_in_stubs', 'Missing9')[i % 3]) if p.kind not in (VP, VK) else p for i, p in enumerate(spec))
+        us = realfn.sig_of(uspec, 'f0')
+        for label, args in (('merge(s)', (us,)), ('merge(s,s)', (us, us))):
+            try:
+                r, exc = merge_sigs(*args)
+            except Exception as e:
+                stats.fail('C09/law/unevaluable-annotations/%s-raised-%s' % (label, type(e).__name__), dict(case, spec_used=universe.spec_text(uspec)),
+                           '%s for s=(%s) [postponed] raised %s: %s' % (label, universe.spec_text(uspec), type(e).__name__, e))
+                continue
+            if r is None or str(r) != str(us):
+                stats.fail('C09/law/unevaluable-annotations/%s' % label, dict(case, spec_used=universe.spec_text(uspec)),
+                           '%s for s=(%s) [postponed] gave %s' % (label, universe.spec_text(uspec), r if r is not None else exc))
     rt = signatures.apply_params(s, *signatures.sort_params(s))
     if not (rt == s) or str(rt) != str(s) or str(rt.evaluated()) != str(s.evaluated()):
         stats.fail('C09/law/annotated/roundtrip', case, 'apply_params(s, *sort_params(s)) = %s (evaluated: %s) for s=(%s)' % (rt, rt.evaluated(), desc))
